@@ -41,6 +41,16 @@ func (s *CDX) Serialize(bom *sbom.Document, _ *native.SerializeOptions, _ interf
 	// Load the context with the CDX value. We initialize a context here
 	// but we should get it as part of the method to capture cancelations
 	// from the CLI or REST API.
+	if bom == nil {
+		return nil, errors.New("document is nil, unable to serialize to CycloneDX")
+	}
+	if bom.Metadata == nil {
+		return nil, errors.New("document metadata is nil, unable to serialize to CycloneDX")
+	}
+	if bom.NodeList == nil {
+		return nil, errors.New("document node list is nil, unable to serialize to CycloneDX")
+	}
+
 	state := newSerializerCDXState()
 	ctx := context.WithValue(context.Background(), stateKey, state)
 
